@@ -30,6 +30,9 @@ func (u UUID) MarshalJSON() ([]byte, error) {
 func (u *UUID) UnmarshalJSON(b []byte) (err error) {
 	var ovsUUID []string
 	if err := json.Unmarshal(b, &ovsUUID); err == nil {
+		if len(ovsUUID) != 2 {
+			return fmt.Errorf("expected a 2 element json array. there are %d elements", len(ovsUUID))
+		}
 		u.GoUUID = ovsUUID[1]
 	}
 	return err
